@@ -249,6 +249,11 @@ func (p *Element) SetBytesUncompressed(buf []byte, trusted bool) error {
 	var y fp.Element
 	// point in curve & subgroup check
 	if !trusted {
+		// x must be a canonical field encoding, otherwise x+p would be a second
+		// accepted encoding of the same element.
+		if err := x.SetBytesCanonical(buf[:coordinateSize]); err != nil {
+			return fmt.Errorf("invalid X coordinate: %s", err)
+		}
 		point := bandersnatch.GetPointFromX(&x, true)
 		if point == nil {
 			return fmt.Errorf("point not in the curve")
